@@ -27,7 +27,7 @@ ASSUMPTIONS = [
     'agrees with u to 1e-8 relative on the nearer tail',
     'lin_std is not covered by the statement and not judged',
 ]
-REQUIRED = {'mean-zero': 0.03, 'kind:Uniform': 0.1, 'kind:LogUniform': 0.1, 'kind:Gaussian': 0.1, 'kind:LogGaussian': 0.1,
+REQUIRED = {'rebounded': 0.25, 'mean-zero': 0.03, 'kind:Uniform': 0.1, 'kind:LogUniform': 0.1, 'kind:Gaussian': 0.1, 'kind:LogGaussian': 0.1,
             'reversed-bounds': 0.1, 'via:parser': 0.1, 'lin-arg': 0.1}
 
 
@@ -246,6 +246,34 @@ def check(case):
         direct = cut(out, 'construct', lambda: klass(**{k: (list(v) if isinstance(v, list) else v)
                                                          for k, v in args.items()}))
         check_distribution(out, 'direct', direct, kind, args, us)
+        # ---- the form in which u arrives: whole numbers for the end points, single precision, 0-d and 1-d arrays --
+        # the same number gives the same quantile (samplers hand over elements of their own arrays).  Single-precision u is
+        # left out: scipy evaluates it in single precision, and mean + std*z then cancels to any relative error
+        out.applies('input-form')
+        for u in list(us[:3]) + [0.0, 1.0]:
+            forms = [('0-d array', np.array(u)), ('1-d array', np.array([u, u]))]
+            if u in (0.0, 1.0):
+                forms += [('int', int(u)), ('numpy int', np.int64(int(u)))]
+            for fname, uf in forms:
+                uref = float(np.asarray(uf, dtype=float).ravel()[0])
+                with np.errstate(all='ignore'):
+                    want_f = float(direct.sample(uref))
+                    got_f = np.asarray(cut(out, 'sample@form:' + fname, direct.sample, uf), dtype=float).ravel()
+                ok_f = all((g_ == want_f) or (math.isnan(g_) and math.isnan(want_f)) or
+                           (math.isfinite(g_) and math.isfinite(want_f) and abs(g_ - want_f) <= (1e-5 if fname == 'float32' else 1e-12) * max(abs(want_f), abs(g_)) + 1e-300) for g_ in got_f)
+                if not ok_f:
+                    out.fail('input-form@%s,%s' % (kind, fname), 'sample(%r as %s) = %s, sample(%r) = %r' % (uref, fname, got_f.tolist(), uref, want_f))
+                    break
+        # ---- history: new bounds given to the same Uniform / LogUniform object (set_bounds): every view follows
+        if 'Uniform' in kind:
+            nb_ = [float(x) for x in case['default']['bounds']]
+            if kind == 'LogUniform':
+                nb_ = [math.log10(x) for x in nb_]
+            if nb_[0] != nb_[1]:
+                out.cls('rebounded')
+                cut(out, 'set_bounds', direct.set_bounds, list(nb_))
+                check_distribution(out, 'rebound', direct, kind, {'bounds': list(nb_)}, us)
+                cut(out, 'set_bounds', direct.set_bounds, [math.log10(v) for v in args['lin_bounds']] if 'lin_bounds' in args else list(args['bounds']))
         # lin_* equivalence with the log10 form
         if 'lin_bounds' in args:
             out.applies('lin-equivalence')
